@@ -9,7 +9,7 @@ from dataclasses import dataclass
 import math
 import typing as t
 
-from .util import flatten_union_args, is_broadcastable
+from .util import flatten_union_args, broadcast_shapes
 from .util import list_phrase, pluralize, remove_article
 
 if t.TYPE_CHECKING:
@@ -177,8 +177,16 @@ def broadcastable(shape: t.Sequence[int]) -> Condition:
     Fails on objects that don't have a `shape` attribute.
     """
     name = f"broadcastable to {tuple(shape)}"
+
+    def f(v: t.Any) -> bool:
+        # broadcastable *to* `shape`: broadcasting the two together must leave `shape` as it is
+        try:
+            return tuple(broadcast_shapes(v.shape, shape)) == tuple(shape)
+        except ValueError:
+            return False
+
     return Condition(
-        lambda v: is_broadcastable(v.shape, shape), name,
+        f, name,
         lambda exp, plural: f"{exp} {name}"
     )
 
